@@ -32,6 +32,30 @@ func c13Oracle(sp *Spec, x *X, res *mcrt.Result) (string, string) {
 		pos  int
 	}
 	var ws []wr
+	// how often each text was written successfully (a program may write the same line twice); -1 = some write of that
+	// text lies outside the property, so its count is not checked
+	expect := map[string]int{}
+	var exact strings.Builder
+	for _, c := range x.Calls {
+		if !strings.HasPrefix(c.Op, "write(") && !strings.HasPrefix(c.Op, "writebuf(") {
+			continue
+		}
+		var text string
+		fmt.Sscanf(c.Op[strings.Index(c.Op, "(")+1:len(c.Op)-1], "%q", &text)
+		if c.Res != fmt.Sprintf("%d,nil", len(text)) || c.Inv >= x.WaitStep {
+			continue
+		}
+		if x.FaultStep > 0 && c.Inv <= x.FaultStep {
+			expect[text] = -1
+		} else if expect[text] >= 0 {
+			expect[text]++
+			exact.WriteString(text)
+		}
+	}
+	if strings.Contains(sp.Name, "exact-bytes") && out != exact.String() {
+		// a container without bars, one writer: the output (escape sequences removed) is the written bytes, nothing else
+		return "bytes-modified", fmt.Sprintf("written %q, output %q", exact.String(), out)
+	}
 	for _, c := range x.Calls {
 		if !strings.HasPrefix(c.Op, "write(") && !strings.HasPrefix(c.Op, "writebuf(") {
 			continue
@@ -53,11 +77,13 @@ func c13Oracle(sp *Spec, x *X, res *mcrt.Result) (string, string) {
 			if late {
 				return "late-write-accepted", fmt.Sprintf("Write(%q) began after Wait returned and reported success", text)
 			}
-			if n != 1 {
-				return "write-count", fmt.Sprintf("Write(%q) reported success; its text occurs %d times in the output", text, n)
+			if want := expect[text]; want >= 0 && n != want {
+				return "write-count", fmt.Sprintf("Write(%q) reported success %d time(s); its text occurs %d times in the output", text, want, n)
 			}
 			pos := strings.Index(out, text)
-			ws = append(ws, wr{c, text, pos})
+			if expect[text] == 1 {
+				ws = append(ws, wr{c, text, pos})
+			}
 			// which output write carries it, and where inside that frame
 			k := 0
 			for k+1 < len(offsets) && offsets[k+1] <= pos {
@@ -175,6 +201,32 @@ func c13Programs(tier string) []*Spec {
 		// Bar.Wait on bar 0 returns only after it was rendered finished: rendering has started by then
 		sp.Clients = [][]Op{{{K: "undelay"}, {K: "incr", B: 0, N: 1}, {K: "barwait", B: 0}, {K: "write", S: "delay-alpha\n"}, {K: "write", S: "delay-bravo\n"}, {K: "incr", B: 1, N: 2}}}
 		sp.Late = []Op{{K: "write", S: "too-late\n"}, {K: "write", S: ""}}
+		out = append(out, sp)
+	}
+	// the same line written twice with a frame in between while the bar rows do not change (two equal frames in a row)
+	for _, rf := range []string{"manual", "auto"} {
+		sp := &Spec{Name: "c13-same-line-twice", Refresh: rf, Q: -1}
+		sp.Bars = []BarSpec{{Total: 1}}
+		sp.Main = []Op{{K: "add", B: 0}}
+		if rf == "manual" {
+			sp.Main = append(sp.Main, Op{K: "refresh"}, Op{K: "write", S: "again\n"}, Op{K: "refresh"}, Op{K: "write", S: "again\n"}, Op{K: "refresh"},
+				Op{K: "write", S: "again\n"}, Op{K: "write", S: "again\n"}, Op{K: "refresh"}, Op{K: "incr", B: 0, N: 1}, Op{K: "refresh"}, Op{K: "refresh"})
+			sp.Clients = [][]Op{{{K: "refresh"}}}
+		} else {
+			sp.Clients = [][]Op{{{K: "write", S: "again\n"}, {K: "sleep", N: 250}, {K: "write", S: "again\n"}, {K: "sleep", N: 250}, {K: "incr", B: 0, N: 1}}}
+		}
+		sp.Late = []Op{{K: "write", S: "too-late\n"}}
+		out = append(out, sp)
+	}
+	// a line written in two pieces with a frame in between, in a container without bars: the output is those bytes
+	for _, rf := range []string{"manual", "auto"} {
+		sp := &Spec{Name: "c13-exact-bytes-nobars", Refresh: rf, Q: -1}
+		if rf == "manual" {
+			sp.Main = []Op{{K: "write", S: "one\n"}, {K: "refresh"}, {K: "write", S: "alp"}, {K: "refresh"}, {K: "write", S: "ha\n"}, {K: "refresh"}, {K: "write", S: "x"}, {K: "write", S: "y\n"}, {K: "refresh"}}
+			sp.Clients = [][]Op{{{K: "refresh"}}}
+		} else {
+			sp.Clients = [][]Op{{{K: "write", S: "one\n"}, {K: "sleep", N: 250}, {K: "write", S: "alp"}, {K: "sleep", N: 250}, {K: "write", S: "ha\n"}, {K: "sleep", N: 250}}}
+		}
 		out = append(out, sp)
 	}
 	// manual refresh with a final client refresh after the last write (main refreshes before Wait)
